@@ -234,7 +234,7 @@ def router_scen(nseq_q, nseq_t, nrace_q, nrace_t):
         th = tier == 'thorough'
         ns, nr = (nseq_t, nrace_t) if th else (nseq_q, nrace_q)
         out = [{'args': ['router', '--mode', 'seq', '--seed', str(seed + k), '--n', str(ns // 4)]} for k in range(4)]
-        out += [{'args': ['router', '--mode', 'race', '--seed', str(seed + 10 + k), '--n', str(nr // 4)], 'timeout': 2400} for k in range(4)]
+        out += [{'args': ['router', '--mode', 'race', '--seed', str(seed + 10 + k), '--n', str(nr // 4)]} for k in range(4)]
         return out
     return f
 
@@ -348,3 +348,38 @@ PROPS['C12']['rule'] += ('; crash: a spawned sender process is killed by its int
                          'close) of one send, for every k, for shapes of 1..6 packets, with/without an attachment, with 0 or 1 surviving sender handle in another process, '
                          'observed by blocking recv, try_recv polling and a receiver set; the crash point is replayed in the model')
 PROPS['C12']['claimed'] = True
+
+
+def set_scen(nq, nt):
+    def f(tier, seed):
+        n = nt if tier == 'thorough' else nq
+        return [{'args': ['set', '--seed', str(seed + k), '--n', str(n // 4), '--tier', tier]} for k in range(4)]
+    return f
+
+
+def search_set(run):
+    for k in range(3):
+        rc, cases, err = vh(['set', '--seed', str(300 + k), '--n', '1500'], timeout=1200)
+        bad = [c for c in cases if c.get('oracle')]
+        if bad or rc != 0:
+            return {'implementation': bad[0] if bad else {'exit': rc, 'stderr': err[-800:]}, 'replay_cmd': f'harness/target-default/debug/vh set --seed {300 + k} --n 1500'}
+    return None
+
+
+PROPS['C06'] = {
+    'modules': ['IpcModel.Props.C06'],
+    'theorems': ['C06.C06_no_lost_wakeup', 'C06.C06_init', 'C06.C06_select_enabled', 'C06.C06_cap_pos', 'RSetP.inv_step'],
+    'scenarios': set_scen(800, 12000),
+    'search': search_set,
+    'rule': ('seeded scripts of 6..35 operations {create channel, add to set, send small / multi-packet, drop sender, select (issued only when something is pending), '
+             'EINTR injected into every 4th wait} over up to 6 members (every 5th case up to 30, so that more than 10 are ready at once), then selects until nothing is '
+             'pending; per-member event sequences and ids compared with the model; non-trivial = more than one select; distinct = distinct script'),
+    'explanation': ('no-lost-wake-up invariant proved for all interleavings and all cap values; select enabled whenever something is pending; the real set compared with '
+                    'the model per member (exactly once, order, closed last) on seeded scripts incl. >10 ready members, traffic queued before add, EINTR'),
+    'assumptions': ['epoll edge-triggered ready list modelled as: append on arrival/closure/registration-while-ready unless present; at most cap tokens per wait',
+                    'per-member exactly-once/closed-last is checked by the harness and the model run, not yet proved as a theorem'],
+    'level_text': ('Kernel-checked for every execution: no lost wake-up (a pending registered member is always in the ready list or in the batch being drained), hence '
+                   'select is enabled whenever a message or closure is pending, for any number of ready members; per-member exactly-once / closed-last is established '
+                   'by model-vs-real comparison on seeded scripts only (partial)'),
+    'level_note': 'Trusted: Lean kernel, harness; epoll ready-list semantics modelled; select loop hand-modelled and tied by per-member event sequences',
+}
